@@ -33,6 +33,17 @@ type Property struct {
 	Timeout func(tier string) time.Duration
 }
 
+// Floor is the least number of distinct non-trivial cases a run of the
+// property's check must have judged for "no violation" to mean anything: a
+// run below it (e.g. because generated code took the evaluation pipeline
+// down) is inconclusive, not a pass.  The floors are about 40% of what the
+// quick tier reaches on the unchanged tree, where the counts vary by a few
+// percent between seeds.
+var Floor = map[string]int{
+	"C01": 800, "C02": 800, "C03": 850, "C04": 850, "C05": 900, "C06": 1150, "C07": 750, "C08": 1200, "C09": 800, "C10": 600,
+	"C11": 1000, "C12": 1250, "C13": 950, "C14": 950, "C15": 600, "C16": 35, "C17": 120, "C18": 85, "C19": 400, "C20": 270,
+}
+
 var registry = map[string]*Property{}
 
 // Register adds a property to the registry.
@@ -401,6 +412,9 @@ func RunProperty(id, tier string, seed uint64) int {
 	}
 	if len(total.Known) > 0 {
 		cov["known_findings"] = total.Known
+	}
+	if fl := Floor[id]; len(total.Violations) == 0 && len(total.Nontrivial) < fl {
+		total.Inconclusive = append(total.Inconclusive, fmt.Sprintf("only %d distinct non-trivial cases were judged (floor %d): the run evaluated too little to count as a pass", len(total.Nontrivial), fl))
 	}
 	if len(total.Inconclusive) > 0 {
 		cov["inconclusive"] = total.Inconclusive
